@@ -1420,6 +1420,7 @@ class WebSocketClientConnection(simple_httpclient._HTTPConnection):
         resolver: Resolver | None = None,
     ) -> None:
         self.connect_future: Future[WebSocketClientConnection] = Future()
+        self._offered_subprotocols = list(subprotocols) if subprotocols else []
         self.read_queue: Queue[None | str | bytes] = Queue(1)
         self.key = base64.b64encode(os.urandom(16))
         self._on_message_callback = on_message_callback
@@ -1535,6 +1536,13 @@ class WebSocketClientConnection(simple_httpclient._HTTPConnection):
         self.headers = headers
         self.protocol = self.get_websocket_protocol()
         self.protocol._process_server_headers(self.key, self.headers)
+        selected = self.protocol.selected_subprotocol
+        if selected is not None and selected not in self._offered_subprotocols:
+            # RFC 6455 section 4.1: a subprotocol that was not present in the
+            # client's handshake must fail the connection.
+            raise ValueError(
+                "server selected subprotocol %r which was not offered" % selected
+            )
         self.protocol.stream = self.connection.detach()
 
         IOLoop.current().add_callback(self.protocol._receive_frame_loop)
